@@ -34,6 +34,10 @@ structure PlugC where
   sec : PSec
   /-- the plugin understands the multiplexing variable and announces the seventh field -/
   advMux : Bool
+  /-- the plugin does not implement AutoMTLS (an old or non-Go plugin): it ignores
+      `PLUGIN_CLIENT_CERT`, sends no certificate in its handshake line and serves plaintext
+      (unless it has a static provider) -/
+  noAuto : Bool
   deriving DecidableEq, Repr
 
 inductive StartErr | protocol | mux | optionConflict | other
@@ -47,6 +51,9 @@ inductive Verdict
   | firstUseErr
   /-- a panic or a nil-error/nil-address start: never allowed -/
   | broken
+  /-- the host asked for transport security (and it applies to this launch), yet the first use
+      completes over a plaintext connection: never allowed -/
+  | downgraded
   deriving DecidableEq, Repr
 
 def allHost : List HostC :=
@@ -56,7 +63,8 @@ def allHost : List HostC :=
   [Launch.cmd, .runner, .reattach].map fun l => ⟨a, s, m, l⟩
 
 def allPlug : List PlugC :=
-  [false, true].flatMap fun g => [PSec.none, .static].flatMap fun s => [false, true].map fun a => ⟨g, s, a⟩
+  [false, true].flatMap fun g => [PSec.none, .static].flatMap fun s => [false, true].flatMap fun a =>
+  [false, true].map fun n => ⟨g, s, a, n⟩
 
 /-- structural facts about `NewClient` / `Start`'s option checks -/
 structure Params where
@@ -64,9 +72,23 @@ structure Params where
   defaultAllowedNetrpcOnly : Bool
   /-- `Start` refuses `GRPCBrokerMultiplex` together with `Reattach` -/
   reattachMuxRefused : Bool
+  /-- `Start` installs `config.TLSConfig` inside its `if c.config.AutoMTLS` block, before the plugin is
+      launched — whenever AutoMTLS is on, whatever the plugin answers later (as opposed to building
+      it only when the handshake line carries the plugin's certificate) -/
+  autoTlsAtStart : Bool
+  /-- every host dial path hands `config.TLSConfig` to the transport (`newRPCClient` wraps the
+      connection, `newGRPCClient`/`dialGRPCConn` use transport credentials with `WithInsecure` only for
+      a nil config, the host's gRPC broker gets the same config and uses it for its dials) -/
+  dialsUseTlsConfig : Bool
+  /-- `Start` compares `c.protocol` with `AllowedProtocols` after the `if len(parts) >= 5` block, in the
+      statement list where the net/rpc default is assigned — so the check also covers the protocol that
+      was DEFAULTED for a four-field (legacy) line, not only a protocol read from the line -/
+  allowedCheckCoversDefault : Bool
   deriving DecidableEq, Repr
 
-def Params.Good (P : Params) : Prop := P.defaultAllowedNetrpcOnly = true ∧ P.reattachMuxRefused = true
+def Params.Good (P : Params) : Prop :=
+  P.defaultAllowedNetrpcOnly = true ∧ P.reattachMuxRefused = true ∧ P.autoTlsAtStart = true ∧ P.dialsUseTlsConfig = true ∧
+  P.allowedCheckCoversDefault = true
 
 instance (P : Params) : Decidable P.Good := by unfold Params.Good; exact inferInstance
 
@@ -86,11 +108,31 @@ def someAddr : Bytes := [47, 116, 109, 112, 47, 112, 108, 117, 103, 105, 110, 49
 /-- host TLS mode in effect: with Reattach the AutoMTLS block of `Start` is never reached -/
 def hostTls (hc : HostC) : Sec := if hc.launch = .reattach ∧ hc.sec = .auto then .none else hc.sec
 
-/-- plugin TLS mode in effect: a static provider wins; otherwise AutoMTLS iff the host sent its certificate -/
+/-- plugin TLS mode in effect: a static provider wins; otherwise AutoMTLS iff the host sent its
+certificate and the plugin implements the exchange -/
 def plugTls (hc : HostC) (pc : PlugC) : Sec :=
   match pc.sec with
   | .static => .static
-  | .none => if hc.sec = .auto ∧ hc.launch ≠ .reattach then .auto else .none
+  | .none => if hc.sec = .auto ∧ hc.launch ≠ .reattach ∧ pc.noAuto = false then .auto else .none
+
+/-- the TLS mode of the configuration the host holds once `Start` has returned: a static
+`TLSConfig` is there from `NewClient`; the AutoMTLS one is installed by `Start` itself
+(`autoTlsAtStart`) or — in the other shape of the code — only by `loadServerCert`, i.e. only
+when the handshake line carried a certificate -/
+def hostTlsAfterStart (I : Params) (hc : HostC) (certInLine : Bool) : Sec :=
+  match hostTls hc with
+  | .auto => if I.autoTlsAtStart || certInLine then .auto else .none
+  | s => s
+
+/-- what the host's dial paths put on the wire for a configuration of mode `s` -/
+def dialSec (I : Params) (s : Sec) : Sec := if I.dialsUseTlsConfig then s else .none
+
+/-- first use of the connection after a successful `Start` -/
+def connect (I : Params) (hc : HostC) (pc : PlugC) : Verdict :=
+  let d := dialSec I (hostTlsAfterStart I hc (plugTls hc pc = .auto))
+  if d = plugTls hc pc then
+    (if hostTls hc ≠ .none ∧ d = .none then .downgraded else .works)
+  else .firstUseErr
 
 /-- the line the plugin prints for this host -/
 def lineOf (hc : HostC) (pc : PlugC) : Bytes :=
@@ -98,28 +140,45 @@ def lineOf (hc : HostC) (pc : PlugC) : Bytes :=
     (if plugTls hc pc = .auto then someCert else [])
     (if hc.mux ∧ pc.advMux then Serve.sTrue else [])
 
+/-- the line of a plugin built before the protocol field existed: `CORE|APP|NETWORK|ADDR` (it serves
+net/rpc; it knows neither AutoMTLS nor multiplexing) -/
+def legacyLine : Bytes := Go.join Handshake.bar [Go.itoa 1, Go.itoa 3, Handshake.sUnix, someAddr]
+
+/-- what such a plugin is, in terms of the plugin configuration: net/rpc, no multiplexing, no AutoMTLS -/
+def legacyPlug (s : PSec) : PlugC := ⟨false, s, false, true⟩
+
 def extOk : Handshake.Ext :=
   ⟨fun n a => some (n, a), fun a => some ⟨Handshake.sTcp, a⟩, fun a => some ⟨Handshake.sUnix, a⟩, fun _ => true⟩
 
-def hostCfgOf (I : Params) (hc : HostC) : Handshake.HostCfg := ⟨[3], allowedList I hc.allowed, hostTls hc ≠ .none, hc.mux⟩
+/-- `legacy` = the line has four fields.  `Handshake.start` checks the (possibly defaulted) protocol
+unconditionally; code that checks it only inside `if len(parts) >= 5` behaves, on a four-field line,
+exactly as if the default (net/rpc) were in the list. -/
+def hostCfgOf (I : Params) (hc : HostC) (legacy : Bool) : Handshake.HostCfg :=
+  ⟨[3], (if legacy && !I.allowedCheckCoversDefault then Handshake.sNetrpc :: allowedList I hc.allowed else allowedList I hc.allowed),
+   hostTls hc ≠ .none, hc.mux⟩
 
 def classify : Handshake.ErrKind → StartErr
   | .protocol => .protocol
   | .muxUnsupported => .mux
   | _ => .other
 
-/-- the composition -/
-def compose (I : Params) (P : Handshake.Params) (hc : HostC) (pc : PlugC) : Verdict :=
+/-- the composition, for a plugin `pc` that prints either its `Serve` line or the legacy line -/
+def composeLine (I : Params) (P : Handshake.Params) (hc : HostC) (pc : PlugC) (legacy : Bool) : Verdict :=
   if hc.launch = .reattach ∧ hc.mux ∧ I.reattachMuxRefused then .startErr .optionConflict   -- refused before anything is launched
   else if hc.launch = .reattach then
     -- no handshake line: address and protocol come from the ReattachConfig
-    if hostTls hc = plugTls hc pc then .works else .firstUseErr
+    connect I hc pc
   else
-    match Handshake.start P (hostCfgOf I hc) extOk (.line (lineOf hc pc)) with
-    | .ok _ _ _ => if hostTls hc = plugTls hc pc then .works else .firstUseErr
+    match Handshake.start P (hostCfgOf I hc legacy) extOk (.line (if legacy then legacyLine else lineOf hc pc)) with
+    | .ok _ _ _ => connect I hc pc
     | .err k _ => .startErr (classify k)
     | .okNoAddr => .broken
     | .panic _ => .broken
+
+def compose (I : Params) (P : Handshake.Params) (hc : HostC) (pc : PlugC) : Verdict := composeLine I P hc pc false
+
+/-- a legacy plugin (four-field line) with the given static-TLS setting -/
+def composeLegacy (I : Params) (P : Handshake.Params) (hc : HostC) (s : PSec) : Verdict := composeLine I P hc (legacyPlug s) true
 
 /-! ### the specification table, written without reference to the composition -/
 
